@@ -1466,5 +1466,49 @@ def check_serialised_tree_carries_every_table(
                            'the class itself consults: the tree written '
                            'into the outputs has lost that table, and the '
                            'CSV / a later reader translate without it'))
-    ctx.floor(rule, 2)
+    # ... and read back: what the deserialisers hand to the constructor is
+    # the parsed text as a whole, or a selection that names every such key
+    for name in ('from_str', 'from_json_file'):
+        g = db.find_method(ci, name)
+        if g is None:
+            continue
+        gcfg = cfg_of(g)
+        grd = rd_of(g)
+        gex = Expander(g)
+        for node in gcfg.nodes:
+            if node.id not in grd.live:
+                continue
+            for c in gcfg.calls_in(node):
+                if not (isinstance(c.func, ast.Name) and c.func.id == 'cls'):
+                    continue
+                arg = None
+                for k in c.keywords:
+                    if k.arg == 'data':
+                        arg = k.value
+                if arg is None and c.args:
+                    arg = c.args[0]
+                if arg is None:
+                    continue
+                n += 1
+                t = gex.expand(arg, node.id)
+                whole = all(isinstance(a, tuple) and a and a[0] == 'call'
+                            and T.call_name(a) in ('loads', 'load')
+                            for a in term_alts(t))
+                named = {x.value for x in ast.walk(g.node)
+                         if isinstance(x, ast.Constant)
+                         and isinstance(x.value, str)}
+                missing = set() if whole else consulted - named
+                ok = whole or not missing
+                ctx.touch(g)
+                ctx.ob(rule, f'{g.qual}:cls(data)', g.loc(c), ok,
+                       'the parsed text is handed to the constructor whole'
+                       if whole else (
+                           'the selection names every table the class '
+                           'consults' if ok else
+                           f'{name} hands the constructor a selection of '
+                           f'the parsed keys that never names '
+                           f'{sorted(missing)}: the tree a stage reads back '
+                           'has lost a table that was written, and outputs '
+                           'labelled through it fall back to raw labels'))
+    ctx.floor(rule, 3)
     return n
